@@ -158,30 +158,102 @@ theorem histogram_chunks (edges : List Int) (cs : List (List Int)) (h : cs ≠ [
       simp only [List.map_cons, List.foldl_cons, pyAdd_zero, hist_fold, histogram_add, List.flatten_cons]
       rw [histogram_comm]
 
-theorem kmerHashes_append (k : Nat) (a b : List (List Nat)) :
-    kmerHashes k (a ++ b) = kmerHashes k a ++ kmerHashes k b := by
+theorem kmerHashes_append (A k : Nat) (a b : List (List Nat)) :
+    kmerHashes A k (a ++ b) = kmerHashes A k a ++ kmerHashes A k b := by
   simp [kmerHashes]
 
-theorem kmerCounts_add (k : Nat) (a b : List (List Nat)) :
-    List.zipWith (· + ·) (kmerCounts k a) (kmerCounts k b) = kmerCounts k (a ++ b) := by
+theorem kmerCounts_add (A k : Nat) (a b : List (List Nat)) :
+    List.zipWith (· + ·) (kmerCounts A k a) (kmerCounts A k b) = kmerCounts A k (a ++ b) := by
   unfold kmerCounts
   rw [zipWith_add_map_range]
   simp [kmerHashes_append, List.count_append]
 
-private theorem kmer_fold (k : Nat) (a : List (List Nat)) (rest : List (List (List Nat))) :
-    (rest.map (kmerCounts k)).foldl pyAdd (PySum.arr (kmerCounts k a)) = PySum.arr (kmerCounts k (a ++ rest.flatten)) := by
+private theorem kmer_fold (A k : Nat) (a : List (List Nat)) (rest : List (List (List Nat))) :
+    (rest.map (kmerCounts A k)).foldl pyAdd (PySum.arr (kmerCounts A k a)) = PySum.arr (kmerCounts A k (a ++ rest.flatten)) := by
   induction rest generalizing a with
   | nil => simp
   | cons d ds ih =>
     simp only [List.map_cons, List.foldl_cons, pyAdd_arr, kmerCounts_add, List.flatten_cons]
     rw [ih]; simp
 
-theorem count_kmers_chunks (k : Nat) (cs : List (List (List Nat))) (h : cs ≠ []) :
-    countKmersStream k cs = PySum.arr (kmerCounts k cs.flatten) := by
+theorem count_kmers_chunks (A k : Nat) (cs : List (List (List Nat))) (h : cs ≠ []) :
+    countKmersStream A k cs = PySum.arr (kmerCounts A k cs.flatten) := by
   cases cs with
   | nil => exact absurd rfl h
   | cons c rest =>
     simp only [countKmersStream, List.map_cons, List.foldl_cons, pyAdd_zero, kmer_fold, List.flatten_cons]
+
+/-! ## mean over axis 0, row-wise maps, quantiles -/
+
+theorem colSums_append (w : Nat) (a b : List (List Int)) :
+    List.zipWith (· + ·) (colSums w a) (colSums w b) = colSums w (a ++ b) := by
+  unfold colSums
+  apply List.ext_getElem
+  · simp
+  · intro i h1 h2
+    simp [List.sum_append]
+
+theorem sumAndNCols_append (w : Nat) (a b : List (List Int)) :
+    List.zipWith (· + ·) (sumAndNCols w a) (sumAndNCols w b) = sumAndNCols w (a ++ b) := by
+  unfold sumAndNCols
+  rw [List.zipWith_append (by simp [colSums]), colSums_append]
+  simp
+
+@[simp] theorem pyAddI_zero (v : List Int) : pyAddI .zero v = .arr v := rfl
+@[simp] theorem pyAddI_arr (a v : List Int) : pyAddI (.arr a) v = .arr (List.zipWith (· + ·) a v) := rfl
+
+private theorem meanCols_fold (w : Nat) (a : List (List Int)) (rest : List (List (List Int))) :
+    (rest.map (sumAndNCols w)).foldl pyAddI (PySumI.arr (sumAndNCols w a)) = PySumI.arr (sumAndNCols w (a ++ rest.flatten)) := by
+  induction rest generalizing a with
+  | nil => simp
+  | cons d ds ih =>
+    simp only [List.map_cons, List.foldl_cons, pyAddI_arr, sumAndNCols_append, List.flatten_cons]
+    rw [ih]; simp
+
+/-- **mean over axis 0** of a stream of 2-d chunks: the (column sums, row count) vectors of the chunks add
+up to those of all rows, for every chunking (empty chunks included). Partial: exact integer arithmetic,
+the final division `t[:-1] / t[-1]` and float re-association are runtime behaviour. -/
+theorem mean_axis0_chunks_partial (w : Nat) (cs : List (List (List Int))) (h : cs ≠ []) :
+    meanColsStream w cs = PySumI.arr (sumAndNCols w cs.flatten) := by
+  cases cs with
+  | nil => exact absurd rfl h
+  | cons c rest =>
+    simp only [meanColsStream, List.map_cons, List.foldl_cons, pyAddI_zero, meanCols_fold, List.flatten_cons]
+
+/-- the column sums really are the sums of the columns: entry `j` adds the `j`-th cell of every row -/
+theorem colSums_getElem (w : Nat) (rows : List (List Int)) (j : Nat) (hj : j < w) :
+    (colSums w rows)[j]? = some ((rows.map (fun r => r.getD j 0)).sum) := by
+  simp [colSums, hj]
+
+/-- **`streamable()` without a reduction** (e.g. `mean(axis=1)`): a row-wise function applied chunk by
+chunk and concatenated is the function applied to all rows, for every chunking -/
+theorem map_chunks {α β} (g : α → β) (cs : List (List α)) :
+    (mapStream (List.map g) cs).flatten = cs.flatten.map g := by
+  simp [mapStream, List.map_flatten]
+
+/-- **quantiles** (`quantile(stream, q)`): computed from the streamed bincount, so equal to the quantile
+index of the concatenated data for every chunking. Partial: `q * total` is a float product at run time. -/
+theorem quantile_chunks_partial (cs : List (List Nat)) (p d : Nat) (h : cs ≠ []) :
+    quantileStream cs p d = some (quantileOf (bincount 0 cs.flatten) p d) := by
+  simp [quantileStream, bincount_chunks 0 cs h]
+
+theorem cumsumFrom_length (acc : Nat) (l : List Nat) : (cumsumFrom acc l).length = l.length := by
+  induction l generalizing acc with
+  | nil => rfl
+  | cons x xs ih => simp [cumsumFrom, ih]
+
+/-- `np.cumsum` pinned by the standard notion: entry `i` is the sum of the first `i+1` counts -/
+theorem cumsumFrom_getElem (acc : Nat) (l : List Nat) (i : Nat) (h : i < l.length) :
+    (cumsumFrom acc l)[i]? = some (acc + (l.take (i + 1)).sum) := by
+  induction l generalizing acc i with
+  | nil => simp at h
+  | cons x xs ih =>
+    cases i with
+    | zero => simp [cumsumFrom]
+    | succ i =>
+      simp only [cumsumFrom, List.getElem?_cons_succ, List.take_succ_cons, List.sum_cons]
+      rw [ih (acc + x) i (by simpa using h)]
+      simp; omega
 
 /-! ## group-by: lemmas -/
 section groupby
@@ -757,6 +829,12 @@ one 10-entry chunk, n = 3 gives sizes [3, 7] -/
 theorem chunkEntriesOld_unsound :
     (chunkEntriesOld 3 [[0, 1, 2, 3, 4, 5, 6, 7, 8, 9]]).map List.length = [3, 7] ∧
     chunkEntriesOld 3 [[0, 1, 2, 3, 4, 5, 6, 7, 8, 9]] ≠ chop 3 [0, 1, 2, 3, 4, 5, 6, 7, 8, 9] := by decide
+
+/-- the shipped `groupby` raised on an empty table in the stream; the repaired one (5241510) yields no groups, and
+every chunking with empty chunks groups like the concatenated data -/
+theorem groupbyChunkOld_unsound :
+    groupbyChunkOld false (fun x : Nat => x) [] = none ∧ groupbyChunk false (fun x : Nat => x) [] = some [] ∧
+    groupbyStream true (fun x : Nat => x) [[1], [], [1, 2], []] = some [(1, [1, 1]), (2, [2])] := by decide
 
 /-- the shipped `chunk_lines` yields an empty trailing chunk when `n` divides the total, and raises
 on an empty stream -/
